@@ -309,16 +309,15 @@ def run_case(case_seed, steps, stats):
                 a.move_qnidx(rec["dst"])
                 rec["out"] = [export(a, kind)]
             elif opk == "dm":
-                real_states = [x for x in states if not np.iscomplexobj(np.asarray(x[0][0].array)) or not any(np.any(np.imag(np.asarray(mt.array)) != 0) for mt in x[0])]
-                real_states = [x for x in real_states if complex(x[0].coeff).imag == 0 or True]
-                if not real_states:
-                    continue
-                a, qa = rng.choice(real_states)
-                if a.is_complex:
-                    continue
+                # MpDm.from_mps of real AND complex states (complex tensors, complex prefactor): an exact step of its own
+                a, qa = rng.choice(states)
+                rec["in"] = [export(a, "mps")]
+                rec["_operands"] = [a]
                 d = MpDm.from_mps(a)      # shares a.qntot (the live-object scan notices if anything writes through it)
+                rec["out"] = [export(d, "mpdm")]
+                rec["complex_source"] = bool(a.is_complex)
+                rec["dtype_ok"] = bool((not a.is_complex) or (d.is_complex and all(np.iscomplexobj(np.asarray(mt.array)) for mt in d)))
                 dms.append((d, qa))
-                continue
             elif opk == "dmadd":
                 if len(dms) < 2:
                     continue
